@@ -125,6 +125,15 @@ def route(tokeniser: Any) -> list[Route]:
     nlri = nlri_class.from_settings(settings)
     static_route = Route(nlri, attributes, nexthop=settings.nexthop)
 
+    # an announce which can not be put on the wire (no next-hop, labelled family without label)
+    # is refused here, with its line, rather than when the UPDATE is generated
+    if nlri_action == Action.ANNOUNCE:
+        from exabgp.bgp.message.update.collection import validate_announce_nlri
+
+        problem = validate_announce_nlri(nlri, settings.nexthop)
+        if problem:
+            raise ValueError(problem)
+
     return list(ParseStatic.split(static_route))
 
 
@@ -260,6 +269,12 @@ def attributes(tokeniser: Any) -> list[Route]:
 
         # Create immutable NLRI from settings
         new_nlri = nlri_class.from_settings(settings)
+        if nlri_action == Action.ANNOUNCE:
+            from exabgp.bgp.message.update.collection import validate_announce_nlri
+
+            problem = validate_announce_nlri(new_nlri, settings.nexthop)
+            if problem:
+                raise ValueError(problem)
         routes.append(Route(new_nlri, attr, nexthop=settings.nexthop))
 
     # If 'nlri' keyword was present but no prefixes followed, return attributes-only
